@@ -225,4 +225,26 @@ theorem mkSetVal_prim {e : Ty} (he : e.isPrim = true) {l : List Payload} (hne : 
     marksOfAll_clean l (fun p hp => (hl p hp).1.2)]
   simp [Value.withMarks, Payload.withMarks, setPayload, Payload.marks1, unionMarks]
 
+theorem rawBList_symm {e : Ty} (he : e.isPrim = true) : ∀ {xs ys : List Payload}, (∀ p ∈ xs, PrimMem e p) →
+    (∀ p ∈ ys, PrimMem e p) → rawBList e xs ys = rawBList e ys xs
+  | [], ys, _, _ => by cases ys <;> rfl
+  | _ :: _, [], _, _ => rfl
+  | x :: xs, y :: ys, hx, hy => by
+    simp only [rawBList]
+    rw [rawB_symm e x y (Ty.isPrim_plain he).1 (hx x (List.mem_cons_self ..)).1 (hy y (List.mem_cons_self ..)).1,
+      rawBList_symm he (fun p hp => hx p (List.mem_cons_of_mem _ hp)) (fun p hp => hy p (List.mem_cons_of_mem _ hp))]
+
+theorem rawBList_trans {e : Ty} (he : e.isPrim = true) : ∀ {xs ys zs : List Payload}, (∀ p ∈ xs, PrimMem e p) →
+    (∀ p ∈ ys, PrimMem e p) → (∀ p ∈ zs, PrimMem e p) → xs.length = ys.length →
+    rawBList e xs ys = true → rawBList e ys zs = true → rawBList e xs zs = true
+  | [], _, _, _, _, _, _, _, _ => by simp [rawBList]
+  | _ :: _, [], _, _, _, _, hl, _, _ => by simp at hl
+  | _ :: _, _ :: _, [], _, _, _, _, _, _ => by simp [rawBList]
+  | x :: xs, y :: ys, z :: zs, hx, hy, hz, hl, h1, h2 => by
+    simp only [rawBList, Bool.and_eq_true] at h1 h2 ⊢
+    exact ⟨rawB_trans e x y z (Ty.isPrim_plain he).1 (hx x (List.mem_cons_self ..)).1 (hy y (List.mem_cons_self ..)).1
+        (hz z (List.mem_cons_self ..)).1 h1.1 h2.1,
+      rawBList_trans he (fun p hp => hx p (List.mem_cons_of_mem _ hp)) (fun p hp => hy p (List.mem_cons_of_mem _ hp))
+        (fun p hp => hz p (List.mem_cons_of_mem _ hp)) (by simpa using hl) h1.2 h2.2⟩
+
 end CtyModel
